@@ -17,6 +17,8 @@ import (
 	"os"
 	"path/filepath"
 	"strings"
+	"sync"
+	"time"
 
 	"github.com/spikeekips/mitum/base"
 	"github.com/spikeekips/mitum/isaac"
@@ -58,15 +60,16 @@ type vpSpec struct {
 }
 
 type recipe struct {
-	Kinds  []int `json:"kinds"`
-	Height int64 `json:"height"`
-	NOps   int   `json:"nops"`
-	NSts   int   `json:"nsts"`
-	Suf    bool  `json:"suffrage_state"`
+	Kinds  []int  `json:"kinds"`
+	Height int64  `json:"height"`
+	NOps   int    `json:"nops"`
+	NSts   int    `json:"nsts"`
+	Suf    bool   `json:"suffrage_state"`
 	Seed   uint64 `json:"seed"`
 
 	point base.Point
 	prev  util.Hash
+	ophs  [][2]util.Hash
 
 	ops     []opSpec
 	opstree treeSpec
@@ -90,6 +93,7 @@ type recipe struct {
 	badChecksum map[base.BlockItemType]bool
 	dropItem    map[base.BlockItemType]bool
 	mapOtherNet bool
+	swapWrite   bool
 }
 
 var itemOrder = []base.BlockItemType{
@@ -142,9 +146,9 @@ func opsTree(keys []string) treeSpec {
 	for i, k := range keys {
 		var n base.OperationFixedtreeNode
 		if strings.HasSuffix(k, "-") {
-			n = base.NewNotInStateOperationFixedtreeNode(valuehash.NewBytesFromStringMust(k[:len(k)-1]), "reason")
+			n = base.NewNotInStateOperationFixedtreeNode(hashOf(k[:len(k)-1]), "reason")
 		} else {
-			n = base.NewInStateOperationFixedtreeNode(valuehash.NewBytesFromStringMust(k), "")
+			n = base.NewInStateOperationFixedtreeNode(hashOf(k), "")
 		}
 		must(w.Add(uint64(i), n))
 	}
@@ -152,6 +156,13 @@ func opsTree(keys []string) treeSpec {
 	must(err)
 
 	return treeSpec{present: true, keys: keys, tr: tr, valid: true}
+}
+
+func hashOf(s string) util.Hash {
+	h, err := valuehash.NewBytesFromString(s)
+	must(err)
+
+	return h
 }
 
 func stsTree(keys []string) treeSpec {
@@ -209,9 +220,16 @@ func (g *gen) base(height int64, nops, nsts int, suf bool) *recipe {
 	rc.point = base.NewPoint(base.Height(height), base.Round(g.r.Intn(3)))
 	if height > 0 {
 		rc.prev = valuehash.RandomSHA256()
+	} else {
+		rc.point = base.GenesisPoint // the genesis point is (0, 0)
 	}
 	for i := 0; i < nops; i++ {
 		rc.ops = append(rc.ops, g.newOp(true, g.e.local))
+	}
+	// the proposal names the operations the block was made from (before any tamper)
+	rc.ophs = make([][2]util.Hash, len(rc.ops))
+	for i := range rc.ops {
+		rc.ophs[i] = [2]util.Hash{rc.ops[i].op.Hash(), rc.ops[i].op.Fact().Hash()}
 	}
 	rc.opstree = opsTree(opKeys(rc.ops))
 	for i := 0; i < nsts; i++ {
@@ -231,10 +249,7 @@ func (g *gen) base(height int64, nops, nsts int, suf bool) *recipe {
 // finish: proposal -> manifest -> voteproofs, honouring what the tampers already fixed
 func (g *gen) finish(rc *recipe, kinds map[int]bool) {
 	e := g.e
-	ophs := make([][2]util.Hash, len(rc.ops))
-	for i := range rc.ops {
-		ophs[i] = [2]util.Hash{rc.ops[i].op.Hash(), rc.ops[i].op.Fact().Hash()}
-	}
+	ophs := rc.ophs
 	prnet := e.networkID
 	if kinds[kPrOtherNet] {
 		prnet = e.otherNet
@@ -246,10 +261,13 @@ func (g *gen) finish(rc *recipe, kinds map[int]bool) {
 		prpoint = base.NewPoint(rc.prHeight, rc.point.Round())
 	}
 	prev := rc.prev
-	if prev == nil {
-		prev = valuehash.RandomSHA256() // ProposalFact wants a previous block hash even at genesis
+	if prev == nil && prpoint.Height() > base.GenesisHeight {
+		prev = valuehash.RandomSHA256()
 	}
-	rc.pr = e.proposal(prpoint, prev, ophs, prnet)
+	rc.pr = e.proposal(prpoint, prev, ophs, prnet) // (genesis proposal: previous block nil)
+	if prev == nil {
+		prev = valuehash.RandomSHA256() // the INIT ballot fact wants a previous block hash
+	}
 
 	rc.mProposal = rc.pr.Fact().Hash()
 	if kinds[kManifestProposalRandom] {
@@ -327,18 +345,18 @@ const (
 	kStsTreeCorruptRoot       = 13
 	kManifestStsRootKeep      = 14 // (internal)
 	// operations
-	kOpsExtra               = 20
-	kOpsMissing             = 21
-	kOpsReplaced            = 22
-	kManifestOpsRootRandom  = 23
-	kOpsDup                 = 24
-	kOpsInvalid             = 25
-	kOpsGenesisOtherSigner  = 26
-	kOpsTreeGarbled         = 27
+	kOpsExtra                 = 20
+	kOpsMissing               = 21
+	kOpsReplaced              = 22
+	kManifestOpsRootRandom    = 23
+	kOpsDup                   = 24
+	kOpsInvalid               = 25
+	kOpsGenesisOtherSigner    = 26
+	kOpsTreeGarbled           = 27
 	kOpsForeignTreeConsistent = 28
-	kOpsNotInStateNode      = 29 // what the real Writer produces for a failed operation: node in the tree, no operation in the file
-	kManifestOpsRootKeep    = 30 // (internal)
-	kOpsTreeCorruptLeaf     = 31
+	kOpsNotInStateNode        = 29 // what the real Writer produces for a failed operation: node in the tree, no operation in the file
+	kManifestOpsRootKeep      = 30 // (internal)
+	kOpsTreeCorruptLeaf       = 31
 	// proposal
 	kManifestProposalRandom = 40
 	kPrOtherHeight          = 41
@@ -353,11 +371,14 @@ const (
 	kVpsSwapped     = 55
 	kVpsGarbled     = 56
 	// checksums / map
-	kBadChecksum  = 60 // + index in itemOrder (60..65)
-	kStsGarbled   = 70
-	kOpsGarbled   = 71
+	kBadChecksum    = 60 // + index in itemOrder (60..65)
+	kStsGarbled     = 70
+	kOpsGarbled     = 71
 	kStsTreeGarbled = 72
-	kMapOtherNet  = 80
+	kMapOtherNet    = 80
+	// not tampers: the block is produced by the repository's block Writer (isaacblock.NewWriter) on top of LocalFSWriter
+	kWriter           = 90
+	kWriterNotInState = 91 // one more operation that failed processing (SetProcessResult instate=false)
 )
 
 var kindName = map[int]string{
@@ -370,10 +391,11 @@ var kindName = map[int]string{
 	kOpsForeignTreeConsistent: "ops-foreign-tree+manifest", kOpsNotInStateNode: "ops-not-in-state-node(genuine)", kOpsTreeCorruptLeaf: "opstree-corrupt-leaf",
 	kManifestProposalRandom: "manifest-proposal-random", kPrOtherHeight: "proposal-other-height", kPrOtherNet: "proposal-invalid-sign", kPrGarbled: "proposal-garbled",
 	kVpsOtherHeight: "vps-other-height", kAvpOtherRound: "avp-other-round", kAvpOtherBlock: "avp-majority-other-block", kIvpOtherNet: "ivp-invalid",
-	kAvpOtherNet: "avp-invalid", kVpsSwapped: "vps-swapped", kVpsGarbled: "vps-garbled",
+	kAvpOtherNet: "avp-invalid", kVpsSwapped: "vps-written-in-swapped-order(harmless)", kVpsGarbled: "vps-garbled",
 	60: "bad-checksum-proposal", 61: "bad-checksum-operations", 62: "bad-checksum-operations_tree", 63: "bad-checksum-states",
 	64: "bad-checksum-states_tree", 65: "bad-checksum-voteproofs", kStsGarbled: "sts-garbled", kOpsGarbled: "ops-garbled",
 	kStsTreeGarbled: "ststree-garbled", kMapOtherNet: "map-signed-other-network",
+	kWriter: "genuine(block-writer)", kWriterNotInState: "genuine(block-writer,failed-operation)",
 }
 
 var allKinds = []int{
@@ -553,8 +575,8 @@ func (g *gen) build(height int64, nops, nsts int, suf bool, want []int) *recipe 
 	kinds := g.tamper(rc, want)
 	g.finish(rc, kinds)
 	if kinds[kVpsSwapped] {
-		rc.vps[0], rc.vps[1] = rc.vps[1], rc.vps[0]
-		rc.vps[0].kindOK, rc.vps[1].kindOK = false, false
+		// harmless: the ACCEPT voteproof is written first, the INIT voteproof second; the item reader sorts them by type
+		rc.swapWrite = true
 	}
 	if kinds[kVpsGarbled] {
 		rc.garble[base.BlockItemVoteproofs] = true
@@ -589,10 +611,13 @@ func (g *gen) write(rc *recipe, root string) base.BlockMap {
 	for i := range rc.ops {
 		must(fs.SetOperation(ctx, uint64(len(rc.ops)), uint64(i), rc.ops[i].op))
 	}
-	if rc.opstree.present {
+	switch {
+	case rc.opstree.present:
 		must(fs.SetOperationsTree(ctx, rc.opstree.tr))
-	} else if len(rc.ops) > 0 {
-		panic("operations without operations tree: not expressible with LocalFSWriter")
+	case len(rc.ops) > 0:
+		// the operations item is registered by SetOperationsTree: go through a one-node tree, drop the tree item afterwards
+		must(fs.SetOperationsTree(ctx, opsTree([]string{valuehash.RandomSHA256().String()}).tr))
+		rc.dropItem[base.BlockItemOperationsTree] = true
 	}
 	must(fs.SetProposal(ctx, rc.pr))
 	for i := range rc.sts {
@@ -602,13 +627,17 @@ func (g *gen) write(rc *recipe, root string) base.BlockMap {
 	case rc.ststree.present:
 		must(fs.SetStatesTree(ctx, rc.ststree.tr))
 	case len(rc.sts) > 0:
-		// the states item is registered by SetStatesTree; register it through a one-node tree and drop the tree item afterwards
-		rc.ststree = stsTree([]string{"dummy"})
-		rc.ststree.present = false
-		must(fs.SetStatesTree(ctx, rc.ststree.tr))
+		// the states item is registered by SetStatesTree: go through a one-node tree, drop the tree item afterwards
+		must(fs.SetStatesTree(ctx, stsTree([]string{"dummy"}).tr))
+		rc.dropItem[base.BlockItemStatesTree] = true
 	}
-	must(fs.SetINITVoteproof(ctx, asINIT(rc.vps[0].vp)))
-	must(fs.SetACCEPTVoteproof(ctx, asACCEPT(rc.vps[1].vp)))
+	if rc.swapWrite {
+		must(fs.SetINITVoteproof(ctx, asINIT(rc.vps[1].vp)))
+		must(fs.SetACCEPTVoteproof(ctx, asACCEPT(rc.vps[0].vp)))
+	} else {
+		must(fs.SetINITVoteproof(ctx, asINIT(rc.vps[0].vp)))
+		must(fs.SetACCEPTVoteproof(ctx, asACCEPT(rc.vps[1].vp)))
+	}
 	must(fs.SetManifest(ctx, rc.manifest))
 	m, err := fs.Save(ctx)
 	must(err)
@@ -624,12 +653,12 @@ func (g *gen) write(rc *recipe, root string) base.BlockMap {
 // static type (the file content is whatever the wrapped voteproof encodes to)
 type initWrap struct{ base.Voteproof }
 
-func (initWrap) BallotMajority() base.INITBallotFact      { return nil }
+func (initWrap) BallotMajority() base.INITBallotFact        { return nil }
 func (initWrap) BallotSignFacts() []base.INITBallotSignFact { return nil }
 
 type acceptWrap struct{ base.Voteproof }
 
-func (acceptWrap) BallotMajority() base.ACCEPTBallotFact      { return nil }
+func (acceptWrap) BallotMajority() base.ACCEPTBallotFact        { return nil }
 func (acceptWrap) BallotSignFacts() []base.ACCEPTBallotSignFact { return nil }
 
 func (w initWrap) MarshalJSON() ([]byte, error)   { return util.MarshalJSON(w.Voteproof) }
@@ -743,17 +772,161 @@ func (g *gen) rewrite(rc *recipe, root string, old base.BlockMap) base.BlockMap 
 	return nm
 }
 
+// ---------------------------------------------------------------- genuine blocks through the repository's block Writer
+
+// recFS passes everything to the real LocalFSWriter and records what the Writer handed over
+type recFS struct {
+	*isaacblock.LocalFSWriter
+	mu      sync.Mutex
+	ops     []base.Operation
+	sts     []base.State
+	opstree fixedtree.Tree
+	ststree fixedtree.Tree
+}
+
+func (r *recFS) SetOperation(ctx context.Context, total, index uint64, op base.Operation) error {
+	r.mu.Lock()
+	r.ops = append(r.ops, op)
+	r.mu.Unlock()
+
+	return r.LocalFSWriter.SetOperation(ctx, total, index, op)
+}
+
+func (r *recFS) SetState(ctx context.Context, total, index uint64, st base.State) error {
+	r.mu.Lock()
+	r.sts = append(r.sts, st)
+	r.mu.Unlock()
+
+	return r.LocalFSWriter.SetState(ctx, total, index, st)
+}
+
+func (r *recFS) SetOperationsTree(ctx context.Context, tr fixedtree.Tree) error {
+	r.opstree = tr
+
+	return r.LocalFSWriter.SetOperationsTree(ctx, tr)
+}
+
+func (r *recFS) SetStatesTree(ctx context.Context, tr fixedtree.Tree) error {
+	r.ststree = tr
+
+	return r.LocalFSWriter.SetStatesTree(ctx, tr)
+}
+
+func treeKeys(tr fixedtree.Tree) []string {
+	var ks []string
+	_ = tr.Traverse(func(_ uint64, n fixedtree.Node) (bool, error) {
+		ks = append(ks, n.Key())
+
+		return true, nil
+	})
+
+	return ks
+}
+
+// nin operations that produce states (nsts states in total, spread over them), nnot operations that failed
+func (g *gen) viaWriter(height int64, nin, nnot, nsts int, suf bool, root string) (*recipe, base.BlockMap) {
+	e := g.e
+	ctx := context.Background()
+	must(os.MkdirAll(root, 0o700))
+	if nin < 1 {
+		nsts = 0
+	} else if nsts < nin {
+		nsts = nin // an in-state operation produces at least one state
+	}
+	rc := &recipe{Height: height, NOps: nin, NSts: nsts, Suf: suf,
+		garble: map[base.BlockItemType]bool{}, badChecksum: map[base.BlockItemType]bool{}, dropItem: map[base.BlockItemType]bool{}}
+	rc.point = base.NewPoint(base.Height(height), base.Round(g.r.Intn(3)))
+	var previous base.Manifest
+	if height > 0 {
+		previous = isaac.NewManifest(base.Height(height-1), valuehash.RandomSHA256(), valuehash.RandomSHA256(), nil, nil, valuehash.RandomSHA256(), time.Now())
+		rc.prev = previous.Hash()
+	} else {
+		rc.point = base.GenesisPoint
+	}
+	ops := make([]opSpec, nin+nnot)
+	rc.ophs = make([][2]util.Hash, len(ops))
+	for i := range ops {
+		ops[i] = g.newOp(true, e.local)
+		rc.ophs[i] = [2]util.Hash{ops[i].op.Hash(), ops[i].op.Fact().Hash()}
+	}
+	prev := rc.prev
+	pr := e.proposal(rc.point, prev, rc.ophs, e.networkID)
+	if prev == nil {
+		prev = valuehash.RandomSHA256()
+	}
+
+	fs, err := isaacblock.NewLocalFSWriter(root, rc.point.Height(), e.enc, e.enc, e.local, e.networkID)
+	must(err)
+	rec := &recFS{LocalFSWriter: fs}
+	bw := e.bwdb(rc.point.Height())
+	defer bw.DeepClose()
+	w := isaacblock.NewWriter(pr, base.NilGetState, bw, func(isaac.BlockWriteDatabase) error { return nil }, rec, 4)
+	if len(ops) > 0 {
+		w.SetOperationsSize(uint64(len(ops)))
+	}
+	given := 0
+	for i := range ops {
+		op := ops[i].op
+		if i >= nin {
+			must(w.SetProcessResult(ctx, uint64(i), op.Hash(), op.Fact().Hash(), false, base.NewBaseOperationProcessReason("failed")))
+
+			continue
+		}
+		n := nsts / nin
+		if i == nin-1 {
+			n = nsts - given
+		}
+		stvs := make([]base.StateMergeValue, n)
+		for j := range stvs {
+			if i == 0 && j == 0 && suf {
+				sv := isaac.NewSuffrageNodesStateValue(base.Height(g.r.Intn(5)), []base.SuffrageNodeStateValue{isaac.NewSuffrageNodeStateValue(base.RandomNode(), rc.point.Height())})
+				stvs[j] = base.NewBaseStateMergeValue(isaac.SuffrageStateKey, sv, nil)
+			} else {
+				stvs[j] = base.NewBaseStateMergeValue("k-"+util.UUID().String(), base.NewDummyStateValue(util.UUID().String()), nil)
+			}
+		}
+		given += n
+		must(w.SetStates(ctx, uint64(i), stvs, op))
+		must(w.SetProcessResult(ctx, uint64(i), op.Hash(), op.Fact().Hash(), true, nil))
+	}
+	manifest, err := w.Manifest(ctx, previous)
+	must(err)
+	ivp := e.initVoteproof(rc.point, prev, pr.Fact().Hash(), e.networkID)
+	avp := e.acceptVoteproof(rc.point, pr.Fact().Hash(), manifest.Hash(), e.networkID)
+	must(w.SetINITVoteproof(ctx, ivp))
+	must(w.SetACCEPTVoteproof(ctx, avp))
+	m, err := w.Save(ctx)
+	must(err)
+
+	// describe what was written
+	for _, op := range rec.ops {
+		rc.ops = append(rc.ops, opSpec{op: op, valid: true, gsigned: true})
+	}
+	for _, st := range rec.sts {
+		rc.sts = append(rc.sts, stSpec{st: st, valid: true, suffrage: base.IsSuffrageNodesState(st)})
+	}
+	rc.opstree = treeSpec{present: rec.opstree.Len() > 0, keys: treeKeys(rec.opstree), tr: rec.opstree, valid: true}
+	rc.ststree = treeSpec{present: rec.ststree.Len() > 0, keys: treeKeys(rec.ststree), tr: rec.ststree, valid: true}
+	rc.pr, rc.prValid, rc.prHeight = pr, true, rc.point.Height()
+	rc.manifest = manifest
+	rc.mProposal, rc.mOpsRoot, rc.mStsRoot = manifest.Proposal(), manifest.OperationsTree(), manifest.StatesTree()
+	rc.vps[0] = vpSpec{vp: ivp, kindOK: true, valid: true, height: rc.point.Height(), round: rc.point.Round()}
+	rc.vps[1] = vpSpec{vp: avp, kindOK: true, valid: true, height: rc.point.Height(), round: rc.point.Round(), newblock: manifest.Hash()}
+
+	return rc, m
+}
+
 // ---------------------------------------------------------------- running the real importer and validator
 
 type observed struct {
-	Items    []bool  `json:"import_items"`
-	Save     bool    `json:"import_save"`
-	Valid    bool    `json:"validator"`
-	HasSub   bool    `json:"has_sub"`
-	Sub      [4]bool `json:"validator_sub"` // proposal, operations, states, voteproofs
-	ValidImp *bool   `json:"validator_on_imported,omitempty"`
-	AvpForManifest bool `json:"avp_for_manifest"`
-	errs     []string
+	Items          []bool  `json:"import_items"`
+	Save           bool    `json:"import_save"`
+	Valid          bool    `json:"validator"`
+	HasSub         bool    `json:"has_sub"`
+	Sub            [4]bool `json:"validator_sub"` // proposal, operations, states, voteproofs
+	ValidImp       *bool   `json:"validator_on_imported,omitempty"`
+	AvpForManifest bool    `json:"avp_for_manifest"`
+	errs           []string
 }
 
 func (g *gen) runImporter(srcroot, dstroot string, m base.BlockMap, height base.Height, ob *observed) {
@@ -862,13 +1035,7 @@ func (g *gen) runSubChecks(root string, height base.Height, m base.BlockMap, ob 
 	ob.Sub[0] = pr != nil && pr.IsValid(e.networkID) == nil && base.IsValidProposalWithManifest(pr, mf) == nil
 	ob.Sub[1] = isaacblock.IsValidOperationsOfBlock(opstree, ops, mf, e.networkID, nil) == nil
 	ob.Sub[2] = isaacblock.IsValidStatesOfBlock(ststree, sts, mf, e.networkID, nil) == nil
-	vok := true
-	for i := range vps {
-		if vps[i] == nil || vps[i].IsValid(e.networkID) != nil {
-			vok = false
-		}
-	}
-	ob.Sub[3] = vok && base.IsValidVoteproofsWithManifest(vps, mf) == nil
+	ob.Sub[3] = isaacblock.IsValidVoteproofsFromLocalFSVerif(e.networkID, vps, mf) == nil
 	if avp, ok := vps[1].(base.ACCEPTVoteproof); ok && avp.BallotMajority() != nil {
 		ob.AvpForManifest = avp.BallotMajority().NewBlock().Equal(mf.Hash()) && avp.Point().Height() == mf.Height() &&
 			avp.Result() == base.VoteResultMajority
@@ -910,11 +1077,24 @@ func item(present, cks bool, decodes bool, content string) string {
 	return fmt.Sprintf("(Present %s (Some %s))", vh.Bool(cks), content)
 }
 
+// BlockMap.IsValid: signature under the network id; proposal and voteproofs items; a tree item for every root the manifest names
+func (rc *recipe) mapValid(m base.BlockMap) bool {
+	present := func(t base.BlockItemType) bool { _, f := m.Item(t); return f }
+
+	return !rc.mapOtherNet && present(base.BlockItemProposal) && present(base.BlockItemVoteproofs) &&
+		(rc.mOpsRoot == nil || present(base.BlockItemOperationsTree)) && (rc.mStsRoot == nil || present(base.BlockItemStatesTree))
+}
+
 func (rc *recipe) coq(m base.BlockMap) string {
 	in := &interner{m: map[string]uint64{}}
 	present := func(t base.BlockItemType) bool { _, f := m.Item(t); return f }
 	it := func(t base.BlockItemType, content string) string {
-		return item(present(t), !rc.badChecksum[t], !rc.garble[t], content)
+		decodes := !rc.garble[t]
+		if t == base.BlockItemStates && len(rc.sts) < 1 {
+			decodes = false // a states item over an empty file (no header line)
+		}
+
+		return item(present(t), !rc.badChecksum[t], decodes, content)
 	}
 	tree := func(ts treeSpec, isops bool) string {
 		keys := make([]string, len(ts.keys))
@@ -949,8 +1129,10 @@ func (rc *recipe) coq(m base.BlockMap) string {
 	}
 	pr := fmt.Sprintf("(mkPr %s %s %s)", vh.Bool(rc.prValid), vh.Z(int64(rc.prHeight)), in.hash(rc.pr.Fact().Hash()))
 
+	mapValid := rc.mapValid(m)
+
 	return fmt.Sprintf("(mkBlk %s %s %s %s %s %s %s %s %s %s %s %s)",
-		vh.Bool(!rc.mapOtherNet), vh.Z(int64(rc.point.Height())), in.hash(rc.manifest.Hash()), in.hash(rc.mProposal),
+		vh.Bool(mapValid), vh.Z(int64(rc.point.Height())), in.hash(rc.manifest.Hash()), in.hash(rc.mProposal),
 		in.opt(rc.mOpsRoot), in.opt(rc.mStsRoot),
 		it(base.BlockItemProposal, pr),
 		it(base.BlockItemOperations, vh.List(ops)),
@@ -977,25 +1159,39 @@ func (ob *observed) coq() string {
 // ---------------------------------------------------------------- one case
 
 type spec struct {
-	Height int64  `json:"height"`
-	NOps   int    `json:"nops"`
-	NSts   int    `json:"nsts"`
-	Suf    bool   `json:"suffrage_state"`
-	Kinds  []int  `json:"kinds"`
+	Height int64    `json:"height"`
+	NOps   int      `json:"nops"`
+	NSts   int      `json:"nsts"`
+	Suf    bool     `json:"suffrage_state"`
+	Kinds  []int    `json:"kinds"`
 	Names  []string `json:"names,omitempty"`
 }
 
 func (g *gen) runCase(sp spec, dir string, cases *vh.Cases, res *vh.Result) {
-	rc := g.build(sp.Height, sp.NOps, sp.NSts, sp.Suf, sp.Kinds)
+	src := filepath.Join(dir, "src")
+	dst := filepath.Join(dir, "dst")
+	defer os.RemoveAll(dir)
+	var rc *recipe
+	var m base.BlockMap
+	genuine := len(sp.Kinds) == 0
+	switch {
+	case len(sp.Kinds) == 1 && (sp.Kinds[0] == kWriter || sp.Kinds[0] == kWriterNotInState):
+		nnot := 0
+		if sp.Kinds[0] == kWriterNotInState {
+			nnot = 1
+		}
+		rc, m = g.viaWriter(sp.Height, sp.NOps, nnot, sp.NSts, sp.Suf, src)
+		rc.Kinds = sp.Kinds
+		genuine = true
+	default:
+		rc = g.build(sp.Height, sp.NOps, sp.NSts, sp.Suf, sp.Kinds)
+		m = g.write(rc, src)
+	}
 	sp.Kinds = rc.Kinds
 	sp.Names = nil
 	for _, k := range rc.Kinds {
 		sp.Names = append(sp.Names, kindName[k])
 	}
-	src := filepath.Join(dir, "src")
-	dst := filepath.Join(dir, "dst")
-	defer os.RemoveAll(dir)
-	m := g.write(rc, src)
 	height := rc.point.Height()
 
 	ob := &observed{}
@@ -1015,7 +1211,7 @@ func (g *gen) runCase(sp spec, dir string, cases *vh.Cases, res *vh.Result) {
 	res.Dist(fmt.Sprintf("verdict:import=%v,validator=%v", ob.Save, ob.Valid))
 
 	// ---- the property oracle (on the real code only)
-	if ob.Save {
+	if ob.Save && rc.mapValid(m) { // (the block map itself is validated by the importer's caller: syncer / import command)
 		vi, vierr := g.runValidator(dst, height)
 		ob.ValidImp = &vi
 		if vi != ob.Valid {
@@ -1037,10 +1233,6 @@ func (g *gen) runCase(sp spec, dir string, cases *vh.Cases, res *vh.Result) {
 				explained = true
 				res.Fail("import-operations-vs-tree-vs-manifest", fmt.Sprintf("importer stored a block whose operations tree does not decode: %s", vierr), sp)
 			}
-			if rc.mapOtherNet {
-				// the block map is validated by the caller of the importer (syncer / import command), not by the importer
-				explained = true
-			}
 			if !explained {
 				res.Fail("import-stored-but-validator-rejects", fmt.Sprintf("%s [%s]", vierr, strings.Join(sp.Names, ",")), sp)
 			}
@@ -1049,10 +1241,14 @@ func (g *gen) runCase(sp spec, dir string, cases *vh.Cases, res *vh.Result) {
 			res.Fail("import-accept-majority-not-manifest", fmt.Sprintf("importer stored a block whose ACCEPT voteproof is not a majority for the manifest hash at the manifest height [%s]", strings.Join(sp.Names, ",")), sp)
 		}
 	}
-	if len(sp.Kinds) == 0 {
+	if genuine {
 		// a block as the repository itself produces it must be importable and valid
+		cls := "genuine-block-rejected"
+		if len(sp.Kinds) == 1 && sp.Kinds[0] == kWriterNotInState && ob.Save && ob.HasSub && ob.Sub[0] && !ob.Sub[1] && ob.Sub[2] && ob.Sub[3] {
+			cls = "validator-rejects-genuine-block-with-failed-operation"
+		}
 		if !ob.Save || !ob.Valid {
-			res.Fail("genuine-block-rejected", fmt.Sprintf("import=%v validator=%v %v %s", ob.Save, ob.Valid, ob.errs, verr), sp)
+			res.Fail(cls, fmt.Sprintf("import=%v validator=%v %v %s", ob.Save, ob.Valid, ob.errs, verr), sp)
 		}
 	}
 
@@ -1087,6 +1283,13 @@ func main() {
 			run(spec{Height: h, NOps: 3, NSts: 3, Suf: true, Kinds: []int{k}})
 		}
 	}
+	// genuine blocks through the repository's block Writer
+	for _, h := range []int64{0, 5} {
+		for _, sh := range [][2]int{{0, 0}, {1, 1}, {3, 5}, {2, 2}} {
+			run(spec{Height: h, NOps: sh[0], NSts: sh[1], Suf: sh[1] > 1, Kinds: []int{kWriter}})
+			run(spec{Height: h, NOps: sh[0], NSts: sh[1], Suf: sh[1] > 1, Kinds: []int{kWriterNotInState}})
+		}
+	}
 	// empty shapes
 	for _, sh := range [][2]int{{0, 0}, {0, 2}, {2, 0}, {1, 1}} {
 		run(spec{Height: 3, NOps: sh[0], NSts: sh[1]})
@@ -1104,6 +1307,10 @@ func main() {
 		nops, nsts := g.r.Intn(5), g.r.Intn(5)
 		suf := nsts > 0 && g.r.Chance(1, 3)
 		run(spec{Height: height, NOps: nops, NSts: nsts, Suf: suf})
+		run(spec{Height: height, NOps: nops, NSts: nsts, Suf: suf, Kinds: []int{kWriter}})
+		if g.r.Chance(1, 3) {
+			run(spec{Height: height, NOps: nops, NSts: nsts, Suf: suf, Kinds: []int{kWriterNotInState}})
+		}
 		for t := 0; t < 10; t++ {
 			kinds := []int{allKinds[g.r.Intn(len(allKinds))]}
 			if g.r.Chance(1, 4) {
